@@ -24,7 +24,7 @@ NEIGHBOUR_KINDS = [
     "profiles.Kx", "profiles.Ky", "profiles.Kz", "domain", "levels.scalar",
     "levels.list", "levels.reorder", "levels.superset", "modes", "meas_pt",
     "srf_bg_conc", "footprint", "analytic", "halo.none", "halo.resolved",
-    "halo.other", "halo.zero", "precision",
+    "halo.other", "halo.zero", "halo.subcell", "precision",
 ]
 KIND_TO_PARAM = {k: k.split(".")[0] for k in NEIGHBOUR_KINDS}
 
@@ -102,7 +102,31 @@ def _profiles(spec, z):
     return z, [u, v, Kx, Ky, Kz]
 
 
-def build_args(spec):
+_POOL = {}
+
+
+def build_args(spec, reuse=False):
+    """reuse=True: hand out the *same array objects* for z, the profiles and
+    srf_flx whenever the shapes agree, refilled in place (a preallocating
+    caller) - contents are exactly those of a fresh build."""
+    args = _build_args(spec)
+    if not reuse:
+        return args
+    def pooled(name, a):
+        key = (name, a.shape, a.dtype.str)
+        buf = _POOL.get(key)
+        if buf is None:
+            buf = _POOL[key] = a.copy()
+        else:
+            buf[...] = a
+        return buf
+    args["z"] = pooled("z", args["z"])
+    args["profiles"] = tuple(pooled(f"p{i}", p) for i, p in enumerate(args["profiles"]))
+    args["srf_flx"] = pooled("srf", args["srf_flx"])
+    return args
+
+
+def _build_args(spec):
     rs = np.random.RandomState(spec["flx_seed"])
     srf = rs.rand(spec["ny"], spec["nx"])
     z = np.linspace(spec["z0"], spec["zm"], spec["nz"]) ** 1.0
@@ -208,6 +232,19 @@ def neighbour(spec, kind, rng):
     elif kind == "halo.other":
         opts = [h for h in (20.0, 35.0, 47.5, 60.0) if h != spec["halo"]]
         s["halo"] = rng.choice(opts)
+    elif kind == "halo.subcell":
+        # a different halo that pads by the same number of cells: the shift of
+        # the Green's function still uses the raw value
+        h = spec["halo"] if spec["halo"] is not None else max(spec["domain"])
+        dx = spec["domain"][0] / spec["nx"]
+        dy = spec["domain"][1] / spec["ny"]
+        for f in (0.3, -0.3, 0.15, -0.15, 0.05):
+            h2 = round(h + f * min(dx, dy), 6)
+            if h2 > 0 and int(h2 / dx) == int(h / dx) and int(h2 / dy) == int(h / dy) and h2 != h:
+                s["halo"] = h2
+                break
+        else:
+            return None
     elif kind == "halo.zero":
         if spec["halo"] == 0.0:
             return None
